@@ -8,6 +8,7 @@ import (
 	"fmt"
 	"io"
 	"net"
+	"os"
 	"regexp"
 	"strings"
 	"sync"
@@ -323,6 +324,9 @@ type SeqConn struct {
 	// writes goes nowhere (kept in Lost)
 	DieAfter int
 	Lost     []byte
+	// WriteFailAfter > 0: once that many request bytes have arrived, further writes fail
+	// with EPIPE (and the current response is served: an early answer to an upload)
+	WriteFailAfter int
 	// StallResp/StallAfter: while response StallResp is being delivered the peer goes
 	// silent once after StallAfter bytes of it (one read times out), then carries on
 	StallResp, StallAfter int
@@ -438,6 +442,18 @@ func (c *SeqConn) Write(p []byte) (int, error) {
 	if c.DieAfter > 0 && c.idx >= c.DieAfter {
 		c.Lost = append(c.Lost, p...)
 		return len(p), nil
+	}
+	if c.WriteFailAfter > 0 && len(c.In)+len(p) > c.WriteFailAfter {
+		// the peer has read the head, answers at once and does not read the rest: the
+		// connection breaks under the client's write (EPIPE), the response is there to read
+		k := c.WriteFailAfter - len(c.In)
+		if k < 0 {
+			k = 0
+		}
+		c.In = append(c.In, p[:k]...)
+		c.armed = true
+		c.cond.Broadcast()
+		return k, &net.OpError{Op: "write", Net: "tcp", Err: os.NewSyscallError("write", syscall.EPIPE)}
 	}
 	c.In = append(c.In, p...)
 	c.armed = true
